@@ -196,8 +196,21 @@ def build_gsv():
 
 
 def _run_chunk(binary, lines, env, timeout):
+    """a request that never returns is an answer too: the process is killed once it has been silent for longer than
+    any request legitimately takes (budget: 60 s + 20 ms per line, far above the 1 MB password expansions), and the
+    caller sees a short output with rc -9 and "hang" in the error text, exactly like a process that died"""
     data = "\n".join(lines) + "\n"
-    r = subprocess.run([binary], input=data, text=True, capture_output=True, env=env, timeout=timeout)
+    budget = min(timeout, 60 + 0.02 * len(lines) + len(data) / 2e5)
+    try:
+        r = subprocess.run([binary], input=data, text=True, capture_output=True, env=env, timeout=budget)
+    except subprocess.TimeoutExpired as e:
+        so = e.stdout or ""
+        if isinstance(so, bytes):
+            so = so.decode("utf-8", "replace")
+        out = so.splitlines()
+        if so and not so.endswith("\n"):
+            out = out[:-1]
+        return out, -9, f"hang: no answer within {budget:.0f} s"
     return r.stdout.splitlines(), r.returncode, r.stderr[-2000:]
 
 
